@@ -389,6 +389,16 @@ def main(run, shard=(0, 1)) -> None:
             check_one(run, s, m, 'codepoints')
         run.case_bulk(2, 2)
     run.count('codepoints', top)
+    # beyond that range in every run: the code points that look like, or are classed with, the characters the escaper cares
+    # about - typographic and full-width quotes and backslashes, the Unicode line and paragraph separators, the BOM, specials
+    special = list(range(0x2010, 0x2030)) + [0x2032, 0x2033, 0x2036, 0x275D, 0x275E, 0x301D, 0x301E, 0x301F, 0xFF02, 0xFF07, 0xFF3C, 0xFE68, 0x29F5,
+                                               0x2215, 0xFEFF, 0xFFFD, 0xFFFE, 0xFFFF, 0x10000, 0x1F600, 0x10FFFF, 0x0130, 0x1E9E]
+    for cp in special:
+        for ctx_s in ('a' + chr(cp) + '\\', chr(cp), chr(cp) + chr(cp) + '"'):
+            for m in (False, True):
+                check_one(run, ctx_s, m, 'codepoints')
+        run.case_bulk(6, 6)
+    run.count('special_codepoints', len(special))
 
     # ---- embedded contexts
     n_emb = 6000 if thorough else 700
@@ -408,7 +418,7 @@ def main(run, shard=(0, 1)) -> None:
     probe.report(run)
     probe.check_reached(run)
     run.require('exhaustive_strings_x_modes', 'chunked_deliveries', 'embedded_line', 'embedded_kv', 'embedded_vmf', 'embedded_bsp', 'embedded_dmx', 'neighbour_contexts',
-                'strings_directly_after_a_directive', 'fresh_tokenizers_after_an_abandoned_one', 'multiline_texts_with_crlf')
+                'strings_directly_after_a_directive', 'fresh_tokenizers_after_an_abandoned_one', 'multiline_texts_with_crlf', 'special_codepoints')
 
 
 def replay(run, data) -> None:
